@@ -139,10 +139,30 @@ type result struct {
 	Stuck    string         `json:"stuck"`
 	Panic    string         `json:"panic"`
 	Viol     *violation     `json:"violation"`
+	Soft     []*violation   `json:"soft"`
 	Tape     []uint32       `json:"tape"`
 	Trace    []string       `json:"trace"`
 	Sample   any            `json:"sample"`
 	StateSig string         `json:"state_sig"`
+}
+
+type aggregate struct {
+	Agg    bool                      `json:"agg"`
+	Runs   int                       `json:"runs"`
+	Evals  int                       `json:"evals"`
+	Steps  int64                     `json:"steps"`
+	SimMS  int64                     `json:"sim_ms"`
+	Trunc  int                       `json:"trunc"`
+	Faults map[string]int            `json:"faults"`
+	Probes map[string]int            `json:"probes"`
+	Cfg    map[string]map[string]int `json:"cfg"`
+	Shapes []string                  `json:"shapes"`
+	States []string                  `json:"states"`
+	MaxRun int                       `json:"max_run"`
+	Viols  map[string]*struct {
+		Viol  *violation `json:"violation"`
+		Count int        `json:"count"`
+	} `json:"viols"`
 }
 
 type replayFile struct {
@@ -220,10 +240,11 @@ type workerOut struct {
 
 // runWorkers explores run indices 0,1,2,... with `workers` processes until
 // the budget is used up. Each process is recycled after `chunk` runs.
-func runWorkers(bin, prop, tier string, seed uint64, budget time.Duration, workers, chunk int, tmp string) ([]result, string) {
+func runWorkers(bin, prop, tier string, seed uint64, budget time.Duration, workers, chunk int, tmp string) ([]result, []aggregate, string) {
 	deadline := time.Now().Add(budget)
 	var mu sync.Mutex
 	var all []result
+	var aggs []aggregate
 	trouble := ""
 	var wg sync.WaitGroup
 	for w := 0; w < workers; w++ {
@@ -274,6 +295,13 @@ func runWorkers(bin, prop, tier string, seed uint64, budget time.Duration, worke
 		sc := bufio.NewScanner(f)
 		sc.Buffer(make([]byte, 1<<20), 1<<28)
 		for sc.Scan() {
+			if bytes.HasPrefix(sc.Bytes(), []byte(`{"agg":true`)) {
+				var a aggregate
+				if err := json.Unmarshal(sc.Bytes(), &a); err == nil {
+					aggs = append(aggs, a)
+				}
+				continue
+			}
 			var r result
 			if err := json.Unmarshal(sc.Bytes(), &r); err == nil {
 				all = append(all, r)
@@ -282,7 +310,7 @@ func runWorkers(bin, prop, tier string, seed uint64, budget time.Duration, worke
 		f.Close()
 	}
 	sort.Slice(all, func(i, j int) bool { return all[i].Run < all[j].Run })
-	return all, trouble
+	return all, aggs, trouble
 }
 
 func workerCount() int {
@@ -319,12 +347,14 @@ func doCheck(prop, tier string) int {
 	}
 	defer os.RemoveAll(tmp)
 	workers := workerCount()
-	results, trouble := runWorkers(bin, prop, tier, seed, time.Duration(budgetS)*time.Second, workers, pc.Chunk, tmp)
+	tRun := time.Now()
+	results, aggs, trouble := runWorkers(bin, prop, tier, seed, time.Duration(budgetS)*time.Second, workers, pc.Chunk, tmp)
+	fmt.Fprintf(os.Stderr, "verifctl: build %.0fs, search+collect %.0fs\n", buildS, time.Since(tRun).Seconds())
 	if trouble != "" {
 		fmt.Fprintln(os.Stderr, trouble)
 		die(2, "harness trouble (not a property violation)")
 	}
-	if len(results) == 0 {
+	if len(results) == 0 && len(aggs) == 0 {
 		die(2, "no runs completed")
 	}
 	known := loadKnown()
@@ -342,20 +372,44 @@ func doCheck(prop, tier string) int {
 		if r.Viol == nil {
 			continue
 		}
-		matched := false
-		for _, k := range known {
-			if k.matches(r.Viol) {
-				knownHit[k.ID]++
-				matched = true
-				break
+		// every violation of the run (primary + soft) is judged on its own;
+		// the first one not covered by a known finding becomes the primary.
+		all := append([]*violation{r.Viol}, r.Soft...)
+		var unmatched *violation
+		for _, v := range all {
+			matched := false
+			for _, k := range known {
+				if k.matches(v) {
+					knownHit[k.ID]++
+					matched = true
+					break
+				}
+			}
+			if !matched && unmatched == nil {
+				unmatched = v
 			}
 		}
-		if !matched {
+		if unmatched != nil {
+			r.Viol = unmatched
 			fresh = append(fresh, r)
 		}
 	}
 	if panics > 0 {
 		die(2, "%d runs panicked inside the harness", panics)
+	}
+	// repeated occurrences that the workers only counted
+	for _, a := range aggs {
+		for _, va := range a.Viols {
+			if va.Count <= 0 || va.Viol == nil {
+				continue
+			}
+			for _, k := range known {
+				if k.matches(va.Viol) {
+					knownHit[k.ID] += va.Count
+					break
+				}
+			}
+		}
 	}
 	for _, k := range known {
 		if k.Status == "known" && k.Property == prop {
@@ -380,7 +434,7 @@ func doCheck(prop, tier string) int {
 		}
 		exit = 1
 	}
-	writeEvidence(prop, tier, seed, pc, results, len(fresh), knownHit, time.Since(start).Seconds(), buildS, workers)
+	writeEvidence(prop, tier, seed, pc, results, aggs, len(fresh), knownHit, time.Since(start).Seconds(), buildS, workers)
 	return exit
 }
 
